@@ -24,9 +24,12 @@ def Flt.feq (x y : Flt) : Bool := !x.isNaN && !y.isNaN && decide (x.key = y.key)
 /-- `f64::partial_cmp` -/
 def Flt.pcmp (x y : Flt) : Option Ordering :=
   if x.isNaN || y.isNaN then none else some (compare x.key y.key)
-/-- bits of `x + 0.0` (maps `-0.0` to `+0.0`, everything else unchanged; NaN payloads aside).
-Bit patterns are `< 2^64`, so `% 2^64` is the identity on real data. -/
-def Flt.hashBits (x : Flt) : Nat := if x.bits % 2 ^ 63 = 0 then 0 else x.bits % 2 ^ 64
+/-- bits of `x + 0.0`: maps `-0.0` to `+0.0`, quiets a signalling NaN (the addition sets the quiet
+bit), leaves everything else unchanged.  Bit patterns are `< 2^64`, so `% 2^64` is the identity on real data. -/
+def Flt.hashBits (x : Flt) : Nat :=
+  if x.bits % 2 ^ 63 = 0 then 0
+  else if x.isNaN then (if x.bits / 2 ^ 51 % 2 = 1 then x.bits % 2 ^ 64 else x.bits % 2 ^ 64 + 2 ^ 51)
+  else x.bits % 2 ^ 64
 
 /-! ### building blocks -/
 
